@@ -395,6 +395,22 @@ static void put_vals(FILE *f, a_que *q)
     }
     fputc(']', f);
 }
+/* element destructor callbacks of the queue: a recording destructor notes the node (numbered per recorded call, like
+   every other address) of every element it is handed */
+static int qcb, qdlog[300], nqdlog;
+static a_size qcb_siz;
+static void qrec_dtor(void *p)
+{
+    if (nqdlog < 300) { qdlog[nqdlog] = aid((a_list *)p - 1); }
+    ++nqdlog;
+}
+#define QCB_DTOR (qcb ? qrec_dtor : (void (*)(void *))0)
+static void put_qdlog(FILE *fo, char const *name)
+{
+    fprintf(fo, ",\"%s\":[", name);
+    for (int i = 0; i < nqdlog && i < 300; ++i) { fprintf(fo, i ? ",%d" : "%d", qdlog[i]); }
+    fprintf(fo, "],\"n%s\":%d", name, nqdlog);
+}
 static int ring_ok(a_que *q)
 {
     int cnt = 0;
@@ -492,6 +508,7 @@ static int do_que(int const *v, int n, FILE *fo)
     void *p = NULL;
     int rc = 0, rval = 0;
     a_byte keyobj[64];
+    qcb = (int)(n_edges & 1); qcb_siz = q[1].siz_; nqdlog = 0; /* every second transition with a recording destructor */
     f_begin(0, 0);
 #include "que_ops.inc"
     f_end();
@@ -512,8 +529,7 @@ static int do_que(int const *v, int n, FILE *fo)
         fputs("],\"rev2\":[", fo); for (int i = 0; i < qwalk.nr2; ++i) { fprintf(fo, i ? ",%d" : "%d", qwalk.rev2[i]); }
         fprintf(fo, "],\"acc\":%d,\"num\":%d,\"siz\":%d}", qwalk.acc, qwalk.num, qwalk.siz);
     }
-    fputs("}\n", fo);
-    ++n_events;
+    if (qcb && (op == 15 || op == 16)) { put_qdlog(fo, "dtor"); }
     /* native comparison of the abstract projection */
     int ok = 1;
     for (int w = 1; w <= 2 && ok; ++w)
@@ -539,8 +555,14 @@ static int do_que(int const *v, int n, FILE *fo)
     else if (rc != 0) { mismatch_hdr("que", qop[op], "return-code"); }
     else if ((int)q[1].cur_ != p1b || (int)q[2].cur_ != p2b) { ++n_drift; }
     n_nontrivial += (op >= 10) || p1 > 0;
-    a_que_dtor(&q[1], NULL);
+    /* destruction: the recording destructor must be handed exactly what is left in the queue */
+    nqdlog = 0; qcb_siz = q[1].siz_;
+    a_que_dtor(&q[1], QCB_DTOR);
+    if (qcb) { put_qdlog(fo, "final"); }
+    qcb = 0;
     a_que_dtor(&q[2], NULL);
+    fputs("}\n", fo);
+    ++n_events;
     return 0;
 }
 
@@ -610,6 +632,7 @@ static int do_que_random(unsigned long seed, int nhist, int nops, char const *pr
             int rc = 0, rval = 0;
             a_byte keyobj[64];
             (void)keyobj; (void)z1;
+            qcb = (op == 15 || op == 16) ? (int)(qrnd() & 1) : 0; qcb_siz = q[1].siz_; nqdlog = 0;
             f_begin(0, 0);
 #include "que_ops.inc"
             f_end();
@@ -629,6 +652,7 @@ static int do_que_random(unsigned long seed, int nhist, int nops, char const *pr
                 fputs("],\"rev2\":[", fo); for (int i = 0; i < qwalk.nr2; ++i) { fprintf(fo, i ? ",%d" : "%d", qwalk.rev2[i]); }
                 fprintf(fo, "],\"acc\":%d,\"num\":%d,\"siz\":%d}", qwalk.acc, qwalk.num, qwalk.siz);
             }
+            if (qcb) { put_qdlog(fo, "dtor"); qcb = 0; }
             fputs("}\n", fo);
             ++n_events;
             ++n_edges;
